@@ -372,15 +372,19 @@ func genImgCase(t *rapid.T) imgCase {
 	return c
 }
 
-// cleanRel is the name as the loaders see it after path.Clean (placeholders left in place: an
-// absolute placeholder path is not a relative escape).
-func cleanRel(name string) string { return path.Clean(name) }
+// virt substitutes the placeholders the way they read inside the jail (sandbox root = "/"); the
+// class predicates work on these sandbox-independent spellings.
+func virt(s string) string {
+	s = strings.ReplaceAll(s, "${T}", "/w/1/2/3/4/5/target")
+	s = strings.ReplaceAll(s, "${B}", "/w/1/2/3/4/5")
+	return strings.ReplaceAll(s, "${R}", "")
+}
+
+// cleanRel is the name as the loaders see it after path.Clean.
+func cleanRel(name string) string { return path.Clean(virt(name)) }
 
 // dotDotName: the cleaned entry name climbs out of the directory it is joined to.
 func dotDotName(name string) bool {
-	if strings.HasPrefix(name, "${") {
-		return false
-	}
 	c := cleanRel(name)
 	return c == ".." || strings.HasPrefix(c, "../")
 }
@@ -435,9 +439,9 @@ func linkNames(c imgCase) map[string]bool {
 func linkThroughLink(c imgCase, e *tarEntry) bool {
 	names := linkNames(c)
 	self := strings.TrimPrefix(cleanRel(e.Name), "/")
-	target := e.Link
+	target := virt(e.Link)
 	var segs []string
-	if strings.HasPrefix(target, "/") || strings.HasPrefix(target, "${") {
+	if strings.HasPrefix(target, "/") {
 		segs = strings.Split(target, "/")
 	} else {
 		segs = append(strings.Split(path.Dir(self), "/"), strings.Split(target, "/")...)
@@ -719,9 +723,9 @@ func propImage(c imgCase) (o ev.Outcome, err error) {
 				o.Classes = append(o.Classes, "loader_panicked:"+c.Loader)
 			} else {
 				o.Classes = append(o.Classes, "loader_error:"+c.Loader)
-			if os.Getenv("C06_SHOWERR") != "" {
-				fmt.Printf("LOADERR %s: %.200v\n", c.Loader, loadErr)
-			}
+				if os.Getenv("C06_SHOWERR") != "" {
+					fmt.Printf("LOADERR %s: %.200v\n", c.Loader, loadErr)
+				}
 			}
 			// a failed load has no designated directory left: everything must be as before
 			if d := sandbox.Diff(before, after, nil); len(d) > 0 {
@@ -802,5 +806,5 @@ func TestC06_image(t *testing.T) {
 		}
 		return
 	}
-	ev.Check(t, col, ev.IntEnv("C06_IMAGE_CHECKS", ev.Scale(2500, 10000)), genImgCase, propImage)
+	ev.Check(t, col, ev.IntEnv("C06_IMAGE_CHECKS", ev.Scale(2500, 30000)), genImgCase, propImage)
 }
